@@ -90,8 +90,8 @@ class C21(Prop):
         "'reopen' emulates a process restart by closing the persistent connection (uncommitted work is rolled back, as at process exit) and constructing a new store on the same file",
         "query() results are compared as sets keyed by handler_id (SQL without ORDER BY promises no order)",
     ]
-    budgets = {"quick": 600, "thorough": 1500}
-    wall = {"quick": 45.0, "thorough": 420.0}
+    budgets = {"quick": 600, "thorough": 800}
+    wall = {"quick": 45.0, "thorough": 300.0}
 
     # ------------------------------------------------------------------ setup
 
